@@ -10,7 +10,7 @@ import ast
 from typing import Dict, List, Optional
 
 from ..core import astq
-from ..core.program import AnalysisError, FunctionInfo, Program, norm, short, walk_function
+from ..core.program import enclosing_stmt, AnalysisError, FunctionInfo, Program, norm, short, walk_function
 from ..report import Result
 from ..runner import Variant
 
@@ -64,8 +64,10 @@ def check_topo(prog: Program, res: Result) -> None:
             res.ob(R, False, fi.qualname, f"plain traversal: {short(t, 60)}", f"traversal is called with `{k.arg}=`: the root-first order is not guaranteed",
                    f"{fi.module.relpath}:{t.lineno}")
     # the graph
-    gdef = _single_def(fi, g_arg.id) if isinstance(g_arg, ast.Name) else g_arg
-    is_dg = isinstance(gdef, ast.Call) and calls.get(id(gdef)) == "networkx.DiGraph"
+    gdef = astq.expand_at(fi.node, g_arg, enclosing_stmt(t), depth=1) if g_arg is not None else None
+    if isinstance(gdef, ast.Name):
+        gdef = _single_def(fi, gdef.id)
+    is_dg = isinstance(gdef, ast.Call) and norm(gdef.func).split(".")[-1] == "DiGraph" and (prog.resolve_expr_name(fi.module, gdef.func) or "").startswith("networkx")
     res.ob(R, is_dg, fi.qualname, "graph is a networkx.DiGraph", f"the traversal graph is built by `{short(gdef, 50) if gdef is not None else '?'}` (not a directed graph: "
            "edge direction, hence parent-before-child, is lost)", fi.where)
     edges_name = None
@@ -74,42 +76,71 @@ def check_topo(prog: Program, res: Result) -> None:
     res.ob(R, edges_name is not None and len(gdef.args) == 1 and not gdef.keywords if is_dg else False, fi.qualname,
            "graph holds exactly the edge list", "the DiGraph is not built from the complete edge list", fi.where)
     if edges_name:
-        ed = _single_def(fi, edges_name)
-        ok = isinstance(ed, ast.ListComp) and len(ed.generators) == 1 and not ed.generators[0].ifs \
-            and norm(ed.generators[0].iter) == param and isinstance(ed.elt, ast.Tuple) and len(ed.elt.elts) == 2 \
-            and "src" in norm(ed.elt.elts[0]) and "dst" in norm(ed.elt.elts[1])
+        builds = astq.list_builds(fi.node, edges_name)
+        ok = len(builds) == 1
+        if ok:
+            b = builds[0]
+            g0 = b.gens[0] if b.gens else None
+            ok = len(b.gens) == 1 and not b.conds and g0 is not None and norm(g0.iter) == param and isinstance(b.elt, ast.Tuple) and len(b.elt.elts) == 2 \
+                and "src" in norm(b.elt.elts[0]) and "dst" in norm(b.elt.elts[1]) and all(norm(g0.target) in astq.names_in(e) for e in b.elt.elts)
         res.ob(R, ok, fi.qualname, "edges = [(src, dst) for every given edge type]",
-               f"the edge list is `{short(ed, 70) if ed is not None else '?'}`: not every edge as (source, destination)", fi.where,
-               sample=short(ed, 90) if ed is not None else None)
-    # the root
-    rdef = _single_def(fi, root_arg.id) if isinstance(root_arg, ast.Name) else root_arg
+               f"the edge list `{edges_name}` is not every edge as (source, destination)", fi.where,
+               sample=short(builds[0].site, 90) if builds else None)
+    # the root: next(topological_sort(same graph))
+    rdef = astq.expand(fi.node, root_arg, keep=[norm(g_arg)] if g_arg is not None else []) if root_arg is not None else None
     ok_root = isinstance(rdef, ast.Call) and norm(rdef.func) == "next" and rdef.args and isinstance(rdef.args[0], ast.Call) \
-        and calls.get(id(rdef.args[0])) == "networkx.topological_sort" and rdef.args[0].args and norm(rdef.args[0].args[0]) == (norm(g_arg) if g_arg is not None else "")
+        and norm(rdef.args[0].func).split(".")[-1] == "topological_sort" and rdef.args[0].args and norm(rdef.args[0].args[0]) == (norm(g_arg) if g_arg is not None else "")
     res.ob(R, ok_root, fi.qualname, "root = next(networkx.topological_sort(dg))",
            f"the traversal starts at `{short(rdef, 60) if rdef is not None else '?'}`, not at the first node of a topological order of the same graph "
            "(edges above that node would never be visited)", fi.where)
-    # the mapping back
+    # the mapping back: one result element per traversed edge, in traversal order, = position of that edge in the edge list
     rv = rets[0].value
-    comp = None
-    for n in ast.walk(rv):
-        if isinstance(n, (ast.ListComp, ast.GeneratorExp)):
-            comp = n
+    inner = rv
+    while isinstance(inner, ast.Call) and norm(inner.func) in ("tuple", "list") and inner.args:
+        inner = inner.args[0]
     sorted_name = None
-    st = enclosing = None
-    for s in walk_function(fi.node):
-        if isinstance(s, ast.Assign) and s.value is t and isinstance(s.targets[0], ast.Name):
-            sorted_name = s.targets[0].id
-    if comp is None and isinstance(rv, ast.Name):
-        d = _single_def(fi, rv.id)
-        for n in ast.walk(d) if d is not None else []:
-            if isinstance(n, (ast.ListComp, ast.GeneratorExp)):
-                comp = n
-    ok_map = comp is not None and len(comp.generators) == 1 and not comp.generators[0].ifs \
-        and (norm(comp.generators[0].iter) == sorted_name or comp.generators[0].iter is t) \
-        and isinstance(comp.elt, ast.Call) and norm(comp.elt.func) == f"{edges_name}.index" \
-        and norm(comp.elt.args[0]) == norm(comp.generators[0].target)
+    for s_ in walk_function(fi.node):
+        if isinstance(s_, ast.Assign) and s_.value is t and isinstance(s_.targets[0], ast.Name):
+            sorted_name = s_.targets[0].id
+    build = None
+    if isinstance(inner, (ast.ListComp, ast.GeneratorExp)):
+        build = astq.ListBuild("<result>", inner.elt, list(inner.generators), [i_ for g_ in inner.generators for i_ in g_.ifs], inner)
+    elif isinstance(inner, ast.Name):
+        d = _single_def(fi, inner.id)
+        dd = d
+        while isinstance(dd, ast.Call) and norm(dd.func) in ("tuple", "list") and dd.args:
+            dd = dd.args[0]
+        if isinstance(dd, (ast.ListComp, ast.GeneratorExp)):
+            build = astq.ListBuild(inner.id, dd.elt, list(dd.generators), [i_ for g_ in dd.generators for i_ in g_.ifs], dd)
+        else:
+            bs = astq.list_builds(fi.node, inner.id)
+            build = bs[0] if len(bs) == 1 else None
+
+    def _is_index_of(e: ast.AST, var: str) -> bool:
+        if isinstance(e, ast.Call) and norm(e.func) == f"{edges_name}.index" and len(e.args) == 1 and norm(e.args[0]) == var:
+            return True
+        if isinstance(e, ast.Subscript) and isinstance(e.value, ast.Name) and norm(e.slice) == var:
+            m = e.value.id  # a position map of the edge list: {edge: first index}
+            for st_ in walk_function(fi.node):
+                if isinstance(st_, ast.Assign) and norm(st_.targets[0]) == m and isinstance(st_.value, ast.DictComp):
+                    g_ = st_.value.generators[0]
+                    le_ = astq.loop_elems(g_, fi.node)
+                    if le_ is not None and norm(le_.seq) == edges_name and le_.index and le_.elem and norm(st_.value.key) == le_.elem and norm(st_.value.value) == le_.index and not g_.ifs:
+                        return True
+            for c_ in astq.method_calls(fi.node, "setdefault"):
+                if norm(c_.func.value) == m and len(c_.args) == 2:
+                    lp_ = (astq.enclosing_loops(c_) or [None])[0]
+                    le_ = astq.loop_elems(lp_, fi.node) if isinstance(lp_, ast.For) else None
+                    if le_ is not None and norm(le_.seq) == edges_name and norm(c_.args[0]) == le_.elem and norm(c_.args[1]) == le_.index:
+                        return True
+        return False
+
+    ok_map = build is not None and len(build.gens) == 1 and not build.conds
+    if ok_map:
+        g0 = build.gens[0]
+        ok_map = (norm(g0.iter) == sorted_name or g0.iter is t or (isinstance(g0.iter, ast.Call) and norm(g0.iter) == norm(t))) and _is_index_of(build.elt, norm(g0.target))
     res.ob(R, ok_map, fi.qualname, "result = edges.index(e) for e in traversal order",
-           f"the result `{short(rv if comp is None else comp, 80)}` does not map every traversed edge back through {edges_name}.index in traversal order", fi.where)
+           f"the result `{short(rv, 80)}` does not map every traversed edge back to its position in `{edges_name}` in traversal order", fi.where)
     wrap = norm(rv) if not isinstance(rv, ast.Name) else norm(_single_def(fi, rv.id) or rv)
     res.ob(R, not any(w in wrap for w in ("reversed(", "sorted(", "[::-1]", "set(")), fi.qualname, "order not altered after the traversal",
            "the traversal order is reversed/sorted/de-duplicated before it is returned", fi.where)
